@@ -103,18 +103,21 @@ def eval_expr(I, st, env, e, frame):
         out = []
         if isinstance(e.op, (ast.Add, ast.Sub, ast.Mult, ast.Div)):
             # arithmetic distributes over lazily decided numeric values without forking the path
-            lazy = seq_eval(I, st, env, [e.left, e.right], frame)
-            if len(lazy) == 1 and not isinstance(lazy[0][1], Raised):
-                s2, (a, b) = lazy[0]
+            # (the operands are evaluated exactly once: evaluation may restrict the state it is given)
+            for (s2, vs) in seq_eval(I, st, env, [e.left, e.right], frame):
+                if isinstance(vs, Raised):
+                    out.append((s2, vs))
+                    continue
+                a, b = vs
                 if (isinstance(a, Choice) or isinstance(b, Choice)) and _numeric_choice(a) and _numeric_choice(b):
                     r = _lazy_arith(I, s2, a, e.op, b, frame, e)
                     if r is not None:
-                        return [(s2, r)]
-                out = []
+                        out.append((s2, r))
+                        continue
                 for (s3, fa) in I.force(s2, a):
                     for (s4, fb) in I.force(s3, b):
                         out.extend(binop(I, s4, fa, e.op, fb, frame, e))
-                return out
+            return out
         for (s2, vs) in seq_eval(I, st, env, [e.left, e.right], frame, forced=True):
             if isinstance(vs, Raised):
                 out.append((s2, vs))
